@@ -34,7 +34,7 @@ VerdictArch(r) ==
            ELSE IF r.keys # <<>> /\ ~topn THEN "not-the-top-n"
            ELSE "ok"
   IN [id |-> r.id, ok |-> (y = "ok"), class |-> r.class, why |-> y, key |-> "C06/" \o r.class \o "/" \o y,
-      nontrivial |-> (r.limit >= 1 /\ r.limit < M /\ M > 23)]       \* (more rows than W5z has entries: members were listed)
+      nontrivial |-> (r.limit >= 1 /\ r.limit < M)]       \* (more rows than W5z has entries: members were listed)
 
 VerdictPlain(r) ==
   LET w     == r.world
